@@ -372,6 +372,7 @@ type agg struct {
 	evals       int
 	verdicts    map[string]int
 	ilsigs      map[string]bool
+	ilonly      map[string]bool
 	faults      map[string]int
 	probes      map[string]int
 	strategies  map[string]int
@@ -406,7 +407,7 @@ func check(id, tier string) int {
 	maxRuns := envInt("VERIF_RUNS", 0)
 	workers := envInt("VERIF_WORKERS", 16)
 	deadline := time.Now().Add(time.Duration(secs) * time.Second)
-	a := &agg{verdicts: map[string]int{}, ilsigs: map[string]bool{}, faults: map[string]int{}, probes: map[string]int{}, strategies: map[string]int{},
+	a := &agg{verdicts: map[string]int{}, ilsigs: map[string]bool{}, ilonly: map[string]bool{}, faults: map[string]int{}, probes: map[string]int{}, strategies: map[string]int{},
 		inconcl: map[string]int{}, known: map[string]int{}, violations: map[string]*RunResult{}, violIdx: map[string]int{}, gmp: map[int]int{}}
 	var next int
 	var nmu sync.Mutex
@@ -457,6 +458,7 @@ func check(id, tier string) int {
 					if r.Nontrivial {
 						a.nontrivial++
 						a.ilsigs[r.ILSig] = true
+						a.ilonly[strings.SplitN(r.ILSig, "-", 2)[0]] = true
 					}
 				case "inconclusive":
 					a.inconcl[firstWords(r.Inconcl, 6)]++
@@ -526,7 +528,7 @@ func check(id, tier string) int {
 		}
 	}
 	writeEvidence(id, tier, base, pc, a, time.Since(t0).Seconds(), len(reported), reported)
-	fmt.Printf("%s %s: %d runs, %d nontrivial, %d distinct interleavings, verdicts=%v, %.1fs\n", id, tier, a.evals, a.nontrivial, len(a.ilsigs), a.verdicts, time.Since(t0).Seconds())
+	fmt.Printf("%s %s: %d runs, %d nontrivial, %d distinct (plan,interleaving), %d distinct interleavings, verdicts=%v, %.1fs\n", id, tier, a.evals, a.nontrivial, len(a.ilsigs), len(a.ilonly), a.verdicts, time.Since(t0).Seconds())
 	return exit
 }
 
@@ -571,9 +573,10 @@ func writeEvidence(id, tier string, seed uint64, pc propCfg, a *agg, wall float6
 	cov := map[string]any{
 		"evaluations":         a.evals,
 		"distinct_nontrivial": len(a.ilsigs),
+		"distinct_interleavings": len(a.ilonly),
 		"rule": "one evaluation = one simulated run in a fresh OS process (seed_i = mix(VERIF_SEED, i); workload, configuration, fault plan and every scheduling decision drawn from it). " +
 			"A run is non-trivial when its scenario marks it so (the system under test did real work and the oracle discharged at least one obligation); " +
-			"two runs are distinct when their interleaving signatures differ (hash of the (task spawn site, operation kind) sequence at every context switch the scheduler made).",
+			"two runs are distinct when their (workload, interleaving) signatures differ: the hash of the generated plan (workload tape) paired with the hash of the (task spawn site, operation kind) sequence at every context switch the scheduler made.",
 		"samples":             samples,
 		"nontrivial_runs":     a.nontrivial,
 		"runs_per_hour":       int(float64(a.evals) / hours),
